@@ -101,3 +101,16 @@ Definition vec_with_capacity {A} (n : Z) : list A := [].
 Definition vec_resize_with {A} (l : list A) (n : Z) (d : A) : list A :=
   if n <=? zlen l then zfirstn n l else l ++ zrepeat d (n - zlen l).
 Definition vec_push {A} (l : list A) (x : A) : list A := l ++ [x].
+
+(* ---------- eq.rs ---------- *)
+(* <[T] as PartialEq>::eq: equal lengths and equal elements (the element comparison eqT is caller code) *)
+Definition vec_eqb {A} (eqT : A -> A -> bool) (l1 l2 : list A) : bool :=
+  (zlen l1 =? zlen l2) && forallb (fun p => eqT (fst p) (snd p)) (combine l1 l2).
+(* slice.iter().enumerate() *)
+Definition zenumerate {A} (l : list A) : list (Z * A) := combine (zseq (zlen l)) l.
+(* Iterator::all with an effectful predicate: left to right, stops at the first false *)
+Fixpoint all_res {X} (l : list X) (f : X -> res bool) : res bool :=
+  match l with
+  | [] => Val true
+  | x :: t => let* b := f x in if b then all_res t f else Val false
+  end.
